@@ -25,7 +25,7 @@ static void util_clean(const Args &a) {
     bytes_t d = a.hex("in"); size_t off = (size_t)a.num("off"), n = (size_t)a.num("n");
     if (off + n > d.size()) fatal("util.clean: range outside the buffer");
     OutBuf buf(d.size(), (unsigned)a.num("align")); buf.load(d);
-    ascon_clean(n == 0 && a.num("null_if_empty") ? (void *)0 : (void *)(buf.p + off), n);
+    ascon_clean(buf.p + off, n);
     Ev ev("util.clean"); ev.b("in", d).n("off", (long long)off).n("n", (long long)n).b("out", buf.get(d.size())).n("guard", buf.guards_ok()); ev.emit();
 }
 void reg_misc() { reg("util.clean", util_clean); reg("hex.to", hex_to); reg("hex.from", hex_from); }
